@@ -332,9 +332,21 @@ func c17RunHistory(h []cop, post *cop, withBuild bool) []Finding {
 	return fs
 }
 
-func c17Search(r *mc.Report, depth int, first int) {
+// c17Churn is a reduced alphabet searched deeper: plain / keyed / grouped registrations of one type
+// interleaved with removals (group members, whose internal keys are positions, around removals).
+var c17Churn = []int{0, 3, 2, 4, 17, 18, 20}
+
+func c17Search(r *mc.Report, depth int, first int, subset ...int) {
 	alpha := c17Alphabet()
 	posts := []int{0, 4, 9, 17, 18, 3}
+	if len(subset) > 0 {
+		full := alpha
+		alpha = nil
+		for _, i := range subset {
+			alpha = append(alpha, full[i])
+		}
+		posts = []int{1}
+	}
 	if r.Only != nil {
 		var c c17Case
 		if json.Unmarshal(r.Only, &c) != nil || len(c.Hist) == 0 || c.Hist[0].Name != alpha[first].Name {
@@ -396,7 +408,7 @@ var _ = reflect.TypeOf
 func init() {
 	mc.Register(&mc.Check{
 		Prop:   "C17",
-		Rule:   "every sequence to depth 3 (quick) / 4 (thorough) over a 23-operation alphabet {Add{Singleton,Scoped,Transient} of 17 forms (incl. registrations that collide with themselves) over a 6-type pool (plain, keyed, grouped, two-return colliding / not colliding, result objects colliding at their second field, aliases, instance values, invalid option combinations), Remove x3, RemoveKeyed x2, AddModules}; after every step Contains / ContainsKeyed / Count / ToSlice are compared with the reference registry and a rejected call must leave the deep dump of the collection unchanged; in every state the collection is Built (Build must not change the dump), no constructor of a removed / rejected registration may have run, the whole identity universe is probed against the model, then one of 6 further mutations is applied to the collection and the SAME provider must answer identically. distinct = distinct first operations x depth (states counted separately).",
+		Rule:   "every sequence to depth 3 (quick) / 4 (thorough) over a 23-operation alphabet {Add{Singleton,Scoped,Transient} of 17 forms (incl. registrations that collide with themselves) over a 6-type pool (plain, keyed, grouped, two-return colliding / not colliding, result objects colliding at their second field, aliases, instance values, invalid option combinations), Remove x3, RemoveKeyed x2, AddModules}; after every step Contains / ContainsKeyed / Count / ToSlice are compared with the reference registry and a rejected call must leave the deep dump of the collection unchanged; in every state the collection is Built (Build must not change the dump), no constructor of a removed / rejected registration may have run, the whole identity universe is probed against the model, then one of 6 further mutations is applied to the collection and the SAME provider must answer identically. plus every sequence to depth 5 (6) over the reduced alphabet {Add plain / grouped / keyed P0, Add P1, Remove(P0), Remove(P1), RemoveKeyed(P0,k)} (group members registered around removals). distinct = distinct first operations x depth (states counted separately).",
 		Assume: []string{"Count/ToSlice count one entry per registered identity (a two-return constructor contributes two)", "the analyzer cache and the mutex are excluded from the dump (not observable)"},
 		Jobs: func(tier string) []mc.Job {
 			depth := 3
@@ -407,6 +419,10 @@ func init() {
 			for i := range c17Alphabet() {
 				i := i
 				jobs = append(jobs, mc.Job{Name: fmt.Sprintf("c17/first-%d", i), Run: func(r *mc.Report) { c17Search(r, depth, i) }})
+			}
+			for i := range c17Churn {
+				i := i
+				jobs = append(jobs, mc.Job{Name: fmt.Sprintf("c17/churn-first-%d", i), Weight: 3, Run: func(r *mc.Report) { c17Search(r, depth+2, i, c17Churn...) }})
 			}
 			return jobs
 		},
